@@ -72,7 +72,24 @@ func pointPool(r *rng, nRand int) []pt {
 	for i := 1; i < n; i += 3 {
 		pool = append(pool, pool[i].neg(), pool[i].endo())
 	}
+	pool = append(pool, tinyXPoints(10)...)
 	return pool
+}
+
+// points with a tiny x-coordinate and their endomorphism images (beta*x, y), (beta^2*x, y): for these
+// x^3 mod p is tiny while x is full size, so x^3 + 7 leaves the field multiplication in the
+// non-canonical window [p, 2^256) — the inputs on which a missing Normalise shows.
+func tinyXPoints(max int) []pt {
+	var out []pt
+	for x := int64(1); x < 200 && len(out) < 3*max; x++ {
+		k, err := bec.ParsePubKey(append([]byte{2}, pad32(big.NewInt(x).Bytes())...), bec.S256())
+		if err != nil {
+			continue
+		}
+		p := pt{k.X, k.Y}
+		out = append(out, p, p.endo(), p.endo().endo())
+	}
+	return out
 }
 
 func scalarBytesPool(r *rng, nRand int) [][]byte {
@@ -524,6 +541,21 @@ func genC12(e *emitter, r *rng, thorough bool) {
 			e.emit("recover.range", "compact.recover "+hx(mk(hb, big.NewInt(5), v))+" "+hx(h))
 		}
 	}
+	// r in the band [P-N, 2^256-N): r + N >= P must be rejected for recid 2/3 although it still fits 256 bits
+	pmn := new(big.Int).Sub(curveP, curveN)
+	top := new(big.Int).Sub(new(big.Int).Lsh(one, 256), curveN)
+	for d := int64(-3); d < 70; d++ {
+		rr := new(big.Int).Add(pmn, big.NewInt(d))
+		for _, hb := range []byte{27, 29, 30, 33, 34} {
+			e.emit("recover.rx-band", "compact.recover "+hx(mk(hb, rr, big.NewInt(5+d*d)))+" "+hx(h))
+		}
+	}
+	for d := int64(1); d < 6; d++ {
+		rr := new(big.Int).Sub(top, big.NewInt(d))
+		for _, hb := range []byte{29, 30} {
+			e.emit("recover.rx-band", "compact.recover "+hx(mk(hb, rr, big.NewInt(9)))+" "+hx(h))
+		}
+	}
 	// tiny r with recid 2/3 (r + N < P)
 	for rr := int64(1); rr < 12; rr++ {
 		for hb := byte(27); hb < 35; hb++ {
@@ -652,6 +684,12 @@ func genC14(e *emitter, r *rng, thorough bool) {
 			}
 			e.emit("addr", fmt.Sprintf("addr %s %d", hx(pk), id))
 		}
+	}
+	// one key object, one *Params whose version byte changes between calls (a cache keyed by pointer would go stale)
+	for i := 0; i < 6; i++ {
+		p := pool[1+r.intn(len(pool)-1)]
+		pk := pubOf(p.x, p.y).SerialiseCompressed()
+		e.emit("addr.seq", fmt.Sprintf("addr.seq %s %d,%d,%d,%d", hx(pk), r.intn(256), r.intn(256), 0, 111))
 	}
 	// hash helpers: padding edges
 	for _, l := range []int{0, 1, 31, 32, 33, 55, 56, 57, 63, 64, 65, 111, 112, 119, 120, 127, 128, 129, 255, 256, 300} {
